@@ -1455,6 +1455,13 @@ for _fam, _tn, _note in (
     ('G-wtr', 'whiletrue', '`while c:` written as `while True:` / `if not c: break`'),
     ('G-elp', 'elsepass', '`else: pass` added to every if that has no else'),
     ('G-ttp', 'testtemp', 'the test of every `if` that is a call bound to a temporary first'),
+    ('G-w2a', 'with2acq', '`with <lock or condition>:` written as acquire() / try / finally release()'),
+    ('G-awa', 'awith2acq', '`async with <condition>:` written as await acquire() / try / finally release()'),
+    ('G-r2t', 'ret2tern', '`if c: return a` / `return b` written as `return a if c else b`'),
+    ('G-cmt', 'commute', 'the operands of `*` and `+` with one literal swapped'),
+    ('G-nwt', 'nowait', '`get_nowait()` / `put_nowait(x)` written as `get(block=False)` / `put(x, block=False)`'),
+    ('G-rsc', 'raisecall', '`raise X` written as `raise X()`'),
+    ('G-rsb', 'raisebare', '`raise X()` written as `raise X`'),
 ):
     for _i, _m in enumerate(_MODS + [FU]):
         VARIANTS.append(V(f'{_fam}-{_i:02d}', 'E', ALL, _m, None, r'\A.*\Z', _tf.apply(_tn), flags=re.S, note=_note))
